@@ -181,6 +181,10 @@ func zooMakers() []zooMaker {
 						continue
 					}
 					doc = append(doc, model.Field{N: name, Len: 1 + f%3, Terms: []model.Term{{T: fmt.Sprintf("t%d", f%7), Freq: 1 + f%3}}, DV: f%10 == 0, St: f%25 == 0, Val: []byte(name)})
+					if f%40 == 5 {
+						// a second and third instance of the same field in this document (field ids far above 64)
+						doc = append(doc, model.Field{N: name, Len: 1, Terms: []model.Term{{T: "again", Freq: 1}}, DV: f%10 == 0}, model.Field{N: name, Len: 1, Terms: []model.Term{{T: fmt.Sprintf("t%d", f%7), Freq: 1}}, DV: f%10 == 0})
+					}
 				}
 				b = append(b, doc)
 			}
